@@ -132,6 +132,9 @@ def has_sym(x, depth=3):
         return any(has_sym(y, depth - 1) for y in x)
     if depth and type(x) is dict:
         return any(has_sym(y, depth - 1) for y in x.values())
+    if depth and getattr(type(x), "__symex_carrier__", False):
+        # harness-side stand-in for an opaque value that carries solver data
+        return any(has_sym(y, depth - 1) for y in vars(x).values())
     return False
 
 
@@ -373,6 +376,8 @@ def p_str(I, x="", *a):
         return x.decode(*a)
     if is_sym(x):
         return fmt.to_str(x)
+    if getattr(type(x), "__symex_carrier__", False):
+        return type(x).__str__(x)
     f = I.dunder(x, "__str__")
     if f is not None and not isinstance(x, BaseException):
         return I.call(f, (x,), {})
